@@ -5,6 +5,7 @@ Only property theorems and non-vacuity examples; helper lemmas are in Lemmas/Aea
 -/
 import Bee2V.C01.Lemmas.Aead
 namespace Bee2V.C01
+open Aead
 
 /-- `beltBlockAddBitSizeU32`, the `#else` variant (size_t of at least 32 bits, here 64): the hand-written carry
 chain `carry = (u32)count << 3; t = count >> 29; carry = (block[0] += carry) < carry;
